@@ -1434,10 +1434,14 @@ func asUncatchableException(v interface{}) error {
 func (r *Runtime) RunProgram(p *Program) (result Value, err error) {
 	vm := r.vm
 	recursive := len(vm.callStack) > 0
+	ctxPushed := false
 	defer func() {
 		if recursive {
-			vm.sp -= 2
-			vm.popCtx()
+			// pushCtx() may have raised a StackOverflowError: then there is nothing to undo
+			if ctxPushed {
+				vm.sp -= 2
+				vm.popCtx()
+			}
 		} else {
 			vm.callStack = vm.callStack[:len(vm.callStack)-1]
 		}
@@ -1454,6 +1458,7 @@ func (r *Runtime) RunProgram(p *Program) (result Value, err error) {
 	}()
 	if recursive {
 		vm.pushCtx()
+		ctxPushed = true
 		vm.stash = &r.global.stash
 		vm.privEnv = nil
 		vm.newTarget = nil
